@@ -455,15 +455,15 @@ func (bg *BondgoCheck) Visit(n ast.Node) ast.Visitor {
 					regname := procbuilder.Get_register_name(cell.Id)
 					switch incDecStmt.Tok {
 					case token.INC:
-						scope.WriteLine(scope.CurrentRoutine, "inc "+regname)
-						scope.Used <- UsageNotify{TR_PROC, scope.CurrentRoutine, C_OPCODE, "inc", I_NIL}
+						bg.WriteLine(bg.CurrentRoutine, "inc "+regname)
+						bg.Used <- UsageNotify{TR_PROC, bg.CurrentRoutine, C_OPCODE, "inc", I_NIL}
 					case token.DEC:
-						scope.WriteLine(scope.CurrentRoutine, "dec "+regname)
-						scope.Used <- UsageNotify{TR_PROC, scope.CurrentRoutine, C_OPCODE, "dec", I_NIL}
+						bg.WriteLine(bg.CurrentRoutine, "dec "+regname)
+						bg.Used <- UsageNotify{TR_PROC, bg.CurrentRoutine, C_OPCODE, "dec", I_NIL}
 					}
 				case MEMORY:
 					gent, _ := Type_from_string(bg.Basic_type)
-					scope.Reqs <- VarReq{REQ_NEW, scope.CurrentRoutine, VarCell{gent, REGISTER, 0, 0, 0, 0, 0, 0}}
+					bg.Reqs <- VarReq{REQ_NEW, bg.CurrentRoutine, VarCell{gent, REGISTER, 0, 0, 0, 0, 0, 0}}
 					resp := <-bg.Answers
 					if resp.AnsType == ANS_OK {
 
@@ -471,22 +471,22 @@ func (bg *BondgoCheck) Visit(n ast.Node) ast.Visitor {
 
 						regname := procbuilder.Get_register_name(newregcell.Id)
 
-						scope.WriteLine(scope.CurrentRoutine, "m2r "+regname+" "+strconv.Itoa(cell.Id))
-						scope.Used <- UsageNotify{TR_PROC, scope.CurrentRoutine, C_OPCODE, "m2r", I_NIL}
+						bg.WriteLine(bg.CurrentRoutine, "m2r "+regname+" "+strconv.Itoa(cell.Id))
+						bg.Used <- UsageNotify{TR_PROC, bg.CurrentRoutine, C_OPCODE, "m2r", I_NIL}
 
 						switch incDecStmt.Tok {
 						case token.INC:
-							scope.WriteLine(scope.CurrentRoutine, "inc "+regname)
-							scope.Used <- UsageNotify{TR_PROC, scope.CurrentRoutine, C_OPCODE, "inc", I_NIL}
+							bg.WriteLine(bg.CurrentRoutine, "inc "+regname)
+							bg.Used <- UsageNotify{TR_PROC, bg.CurrentRoutine, C_OPCODE, "inc", I_NIL}
 						case token.DEC:
-							scope.WriteLine(scope.CurrentRoutine, "dec "+regname)
-							scope.Used <- UsageNotify{TR_PROC, scope.CurrentRoutine, C_OPCODE, "dec", I_NIL}
+							bg.WriteLine(bg.CurrentRoutine, "dec "+regname)
+							bg.Used <- UsageNotify{TR_PROC, bg.CurrentRoutine, C_OPCODE, "dec", I_NIL}
 						}
 
-						scope.WriteLine(scope.CurrentRoutine, "r2m "+regname+" "+strconv.Itoa(cell.Id))
-						scope.Used <- UsageNotify{TR_PROC, scope.CurrentRoutine, C_OPCODE, "r2m", I_NIL}
-						scope.Reqs <- VarReq{REQ_REMOVE, scope.CurrentRoutine, newregcell}
-						if (<-scope.Answers).AnsType != ANS_OK {
+						bg.WriteLine(bg.CurrentRoutine, "r2m "+regname+" "+strconv.Itoa(cell.Id))
+						bg.Used <- UsageNotify{TR_PROC, bg.CurrentRoutine, C_OPCODE, "r2m", I_NIL}
+						bg.Reqs <- VarReq{REQ_REMOVE, bg.CurrentRoutine, newregcell}
+						if (<-bg.Answers).AnsType != ANS_OK {
 							bg.Set_faulty("Resource clean failed")
 							return nil
 						}
